@@ -3,6 +3,7 @@ CONSTANT MaxReg = 2
 CONSTANT MaxUnreg = 1
 CONSTANT MaxLen = 3
 CONSTANT MaxGen = 2
+CONSTANT Negative = FALSE
 CONSTANT Narrow = TRUE
 CONSTANT Rich = FALSE
 INVARIANT TypeOK
